@@ -530,7 +530,12 @@ class World:
                 if old is not None:
                     old._async_cancel()
                 self.browsers[bid] = b
-                start_browser(b)          # the real _async_start
+                if len(op) > 4 and op[4]:
+                    _TICKING[0] = 0       # the clock ticks between the two readings of the creation (purge, replay)
+                try:
+                    start_browser(b)      # the real _async_start
+                finally:
+                    _TICKING[0] = None
             elif k == "BR":
                 b = self.browsers.pop(op[1], None)
                 if b is not None:
@@ -635,7 +640,10 @@ def render(obs):
     if k in ("LA", "LR"):
         return "%s %s" % (k, _ids(obs["ids"]))
     if k == "BA":
-        return "BA cb=%s" % render_cb(obs["cb"])
+        if obs["u"] is None:
+            return "BA u=~ c1=~ c2=~ cb=%s" % render_cb(obs["cb"])
+        u = sep(",", ["%s>%s" % (n, "~" if o is None else o) for n, o in obs["u"]])
+        return "BA u=%s c1=%s c2=%s cb=%s" % (u, _ids(obs["c1"]), _ids(obs["c2"]), render_cb(obs["cb"]))
     if k == "BR":
         return "BR"
     raise HarnessError(k)
@@ -675,7 +683,7 @@ def build_line(probes, ops):
         elif k in ("LA", "LR", "BR"):
             t += [k, str(op[1])]
         elif k == "BA":
-            t += ["BA", str(op[1]), str(op[2]), str(len(op[3]))] + [C.hs(x) for x in op[3]]
+            t += ["BA", str(op[1]), str(op[2]), str(op[2] + (1 if len(op) > 4 and op[4] else 0)), str(len(op[3]))] + [C.hs(x) for x in op[3]]
         else:
             raise HarnessError(k)
     return " ".join(t)
